@@ -294,6 +294,36 @@ pub fn run(tier: Tier) -> Report {
         }
     });
     rep.acc.merge(acc);
+    // exponents of every magnitude: y = +-2^-k and +-1.5*2^-k for k = 0..=40 (down to where x^y is 1 to
+    // the last bit for every x) against every binade of x and 64 mantissas: shortcuts for "small" or
+    // "integral" y are thresholded somewhere on this axis
+    {
+        let ys: Vec<f32> = (0..=40).flat_map(|k| { let b = 2f64.powi(-k); [b, -b, 1.5 * b, -1.5 * b, 80.0 * b, -80.0 * b] }).map(|y| y as f32).collect();
+        let nm3 = 64u64;
+        let ny3 = ys.len() as u64;
+        let total3 = 254 * nm3 * ny3;
+        let acc = par_chunks(total3, 1 << 16, |acc, lo, hi| {
+            let mut worst = 0.0;
+            let mut wc = (0, 0);
+            let mut n = 0;
+            for i in lo..hi {
+                let y = ys[(i % ny3) as usize];
+                let xm = (i / ny3) % nm3;
+                let xe = i / (ny3 * nm3) + 1;
+                let x = f32::from_bits(((xe as u32) << 23) | ((xm as u32) << 17));
+                match pow_one(acc, i, x, y, &mut worst, &mut wc) {
+                    None => return,
+                    Some(true) => n += 1,
+                    Some(false) => {}
+                }
+            }
+            acc.states += hi - lo;
+            acc.transitions += hi - lo;
+            acc.bucket("powf, y of every magnitude: within bound", n);
+            acc.worst("powf err/bound y-magnitude sweep", worst, || json!({"x": wc.0, "y": wc.1}));
+        });
+        rep.acc.merge(acc);
+    }
     // (mantissa x exponent) x lattice of t = y*log2(x): powf is exp2(y*log2 x), whose error is a function
     // of the mantissa of x (the log2 polynomial) and of the integer and fractional part of t (the exp2
     // split); the (x,y) grid above samples frac(t) irregularly, this one places it on a lattice of its own
@@ -348,7 +378,7 @@ pub fn run(tier: Tier) -> Report {
     rep.acc.sample(json!({"fn":"cbrtf","domain":"every one of the 2^32 f32 bit patterns","oracle":"f64 cbrt, <= 1 ulp, bitwise oddness"}));
     rep.exhaustive = false;
     rep.bound = format!(
-        "cbrtf and expf: all 2^32 bit patterns (completely exhaustive); powf: {} for each of the 12 exponents the library uses, base 10 over the C03 stratum for both log curves, the full product of 254 exponents x {nm} mantissas x 1601 y-values (-80..80 step 0.1), the lattice of 6 exponents x 2^10 (thorough 2^12) mantissas x every t = y*log2(x) = k + j/256 (thorough j/1024; plus both sides of 0 and 1/2) with |y| <= 80, and {}^2 special x special pairs for totality",
+        "cbrtf and expf: all 2^32 bit patterns (completely exhaustive); powf: {} for each of the 12 exponents the library uses, base 10 over the C03 stratum for both log curves, the full product of 254 exponents x {nm} mantissas x 1601 y-values (-80..80 step 0.1), y = +-2^-k, +-1.5*2^-k, +-80*2^-k (k = 0..40) x 254 exponents x 64 mantissas, the lattice of 6 exponents x 2^10 (thorough 2^12) mantissas x every t = y*log2(x) = k + j/256 (thorough j/1024; plus both sides of 0 and 1/2) with |y| <= 80, and {}^2 special x special pairs for totality",
         tier.pick("every positive normal x with low 8 mantissa bits zero (8.3 M values)", "EVERY positive normal x (2.13e9 values)"),
         specials().len()
     );
@@ -360,6 +390,7 @@ pub fn run(tier: Tier) -> Report {
     rep.guard_bucket("expf [-1e38,-88]: 0");
     rep.guard_bucket("powf fixed exponent: within bound");
     rep.guard_bucket("powf (x,y) product: within bound");
+    rep.guard_bucket("powf, y of every magnitude: within bound");
     if !light() {
         rep.guard_bucket("powf (mantissa, t = y*log2 x) lattice: within bound");
     }
